@@ -167,15 +167,16 @@ class ModbusTransactionManager(object):
                             _logger.debug("Retry on empty - {}".format(retries))
                         elif not response:
                             break
-                        if not self.retry_on_invalid:
+                        elif not self.retry_on_invalid:
                             break
-                        mbap = self.client.framer.decode_data(response)
-                        if (mbap.get('unit') == request.unit_id):
-                            break
-                        if ('length' in mbap and expected_response_length and
-                            mbap.get('length') == expected_response_length):
-                            break
-                        _logger.debug("Retry on invalid - {}".format(retries))
+                        else:
+                            mbap = self.client.framer.decode_data(response)
+                            if (mbap.get('unit') == request.unit_id):
+                                break
+                            if ('length' in mbap and expected_response_length and
+                                mbap.get('length') == expected_response_length):
+                                break
+                            _logger.debug("Retry on invalid - {}".format(retries))
                         if hasattr(self.client, "state"):
                             _logger.debug("RESETTING Transaction state to 'IDLE' for retry")
                             self.client.state = ModbusTransactionState.IDLE
